@@ -100,6 +100,12 @@ CLAIMED["C17"] = dict(
   technique="symbolic execution of go/ssa with SMT over an exhaustively enumerated finite request vocabulary, effect stubs with precondition assertions; ghost single-file store for the sanitise/carry-over obligations",
   ref="4-C17")
 
+CLAIMED["C13"] = dict(
+  text="Symbolic execution (SMT over go/ssa) with a ghost 'held' bit per mutex object: LOCKSET obligations (every read/write of Group.{description,locked,clients,history,timestamp,data}, WhipClient.{permissions,connection,etag}, unbounded.Channel.queue and of the objects reached through them happens with the guarding mutex held, on every feasible path of 18 group entry points, 5 WHIP/web-client operations and the queue operations) and a LOCK-ORDER obligation (the graph of 'mutex B acquired while holding A', abstracted to owner type and field, collected over all those paths is acyclic). Plus the sequential contract of the client action queue (every item exactly once, in order, signal on empty->non-empty). This decides absence of data races and deadlocks for the listed state at the level of mutex discipline, which is where such defects come from; it assumes sync.Mutex works.",
+  note="No goroutines are run and no interleavings are enumerated: the bounded interleaving exploration of unbounded.Channel announced in DESIGN 2.7 (threads) was not built, so 'lost wake-ups' are excluded only through the lockset argument (the emptiness test that decides the wake-up is made under the lock). State confined to its owner goroutine by design (webClient.permissions/data, WhipClient.username/group) is NOT checked - see DESIGN section 6, N7. diskwriter, stats and token.state entry points are not included. Go statements are not executed. Trusted: go/ssa, gosmt's mutex model, z3/cvc5.",
+  technique="lockset and lock-order obligations on SMT-based symbolic execution paths of go/ssa",
+  ref="4-C13")
+
 NOT_APPLICABLE = {
 }
 
